@@ -771,3 +771,65 @@ func (fr *frame) parseIntSym(s *symString, base, bits int, fn string, kind types
 func zeroOfKind(k types.BasicKind) value { return mkInt(k, 0) }
 
 var _ = fmt.Sprintf
+
+// ---- sync.Map: modelled as an insertion-ordered map keyed by interface values ----
+
+func (fr *frame) syncMapOf(recv value, create bool) *omap {
+	p := recv.(*value)
+	in := fr.i
+	if m, ok := in.env.syncMaps[p]; ok {
+		return m
+	}
+	if !create {
+		return nil
+	}
+	m := makeMap(types.NewInterfaceType(nil, nil), 0)
+	in.env.syncMaps[p] = m
+	in.logUndo(func() { delete(in.env.syncMaps, p) })
+	return m
+}
+
+func init() {
+	I := intrinsics
+	I["(*sync.Map).Load"] = func(fr *frame, args []value) (value, bool) {
+		m := fr.syncMapOf(args[0], false)
+		if m != nil {
+			if v, ok := m.lookup(args[1]); ok {
+				return tuple{v, true}, true
+			}
+		}
+		return tuple{iface{}, false}, true
+	}
+	I["(*sync.Map).Store"] = func(fr *frame, args []value) (value, bool) {
+		fr.syncMapOf(args[0], true).insert(fr.i, args[1], args[2])
+		return nil, true
+	}
+	I["(*sync.Map).LoadOrStore"] = func(fr *frame, args []value) (value, bool) {
+		m := fr.syncMapOf(args[0], true)
+		if v, ok := m.lookup(args[1]); ok {
+			return tuple{v, true}, true
+		}
+		m.insert(fr.i, args[1], args[2])
+		return tuple{args[2], false}, true
+	}
+	I["(*sync.Map).Delete"] = func(fr *frame, args []value) (value, bool) {
+		if m := fr.syncMapOf(args[0], false); m != nil {
+			m.delete(fr.i, args[1])
+		}
+		return nil, true
+	}
+	I["(*sync.Map).Range"] = func(fr *frame, args []value) (value, bool) {
+		if m := fr.syncMapOf(args[0], false); m != nil {
+			for i := 0; i < len(m.keys); i++ {
+				if !m.live[i] {
+					continue
+				}
+				r := fr.i.call(fr, 0, args[1], []value{m.keys[i], m.vals[i]})
+				if b, ok := r.(bool); ok && !b {
+					break
+				}
+			}
+		}
+		return nil, true
+	}
+}
